@@ -38,6 +38,9 @@ META = {
 }
 
 ORDERS = ["base_first", "subclass_first"]
+# where the model declares its clustering column (Bind.tla MLayouts); its type (case.ckty) differs from the partition key
+# column whose place it takes
+LAYOUTS = ["keys_first", "clustering_first", "clustering_between"]
 # What the application defines and uses before the model of a case (Bind.tla MOrders).  cqlengine's column classes form
 # a hierarchy (BigInt, SmallInt, TinyInt < Integer; Ascii < Text); anything a column class remembers at class level is
 # inherited, so which of them was used first is part of the input.
@@ -121,7 +124,7 @@ def evaluate(env, case):
     tys = list(case["tys"])
     keyvals = [B.py_value(t, v) for t, v in zip(tys, case["vals"])]
     try:
-        model = env.model(tys)
+        model = env.model(tys, case.get("layout", "keys_first"), case.get("ckty", "int"))
         stmts = run_op(env, model, case["op"], keyvals)
     except Exception as ex:          # noqa: a mutated mapper may raise anywhere
         return {"raised": "%s: %s" % (type(ex).__name__, str(ex)[:200]), "statements": []}
@@ -139,6 +142,8 @@ def compare(env, st):
     obs = evaluate(env, case)
     rep = {"case": case, "spec": exp, "code": obs}
     head = "%s:%dkeys:%s" % (case["op"], len(case["tys"]), case.get("order", "base_first"))
+    if case.get("layout", "keys_first") != "keys_first":
+        head += ":" + case["layout"]
     if obs["raised"]:
         return ("mapper operation raised %s" % obs["raised"], head + ":raised", rep)
     if not obs["statements"]:
@@ -159,12 +164,13 @@ def run(ctx):
     types = {"int", "text", "bigint", "uuid"} if ctx.quick else \
             {"int", "text", "bigint", "boolean", "uuid", "smallint", "tinyint", "ascii", "blob"}
     consts = {"MaxCols": 1, "MaxPk": 0, "PVs": {4}, "NVals": 1, "NTextVals": 1, "Partial": False, "MTypes": types, "MMaxPk": 3,
-              "MOps": set(OPS), "MOrders": set(ORDERS), "MEmpty": not ctx.quick}
+              "MOps": set(OPS), "MOrders": set(ORDERS), "MEmpty": not ctx.quick, "MLayouts": set(LAYOUTS), "MLayoutMaxPk": 2}
     cfg = tlc.write_cfg(os.path.join(ctx.scratch, "mapper.cfg"), init="MapperInit", constants=consts,
                         invariants=["MapperKeyIsComposite"], deadlock=False)
     res, states = tlc.enumerate_states("Bind", cfg, ctx.scratch, timeout=900 if ctx.quick else 3000)
     ctx.add_tlc(res, "exhaustive (MapperInit)")
-    ctx.note("constants", {"MTypes": sorted(types), "MMaxPk": 3, "MOps": OPS, "MOrders": ORDERS, "MEmpty": not ctx.quick})
+    ctx.note("constants", {"MTypes": sorted(types), "MMaxPk": 3, "MOps": OPS, "MOrders": ORDERS, "MEmpty": not ctx.quick,
+                           "MLayouts": LAYOUTS, "MLayoutMaxPk": 2})
     ctx.note("exhaustive", True)
     if res.violation:
         ctx.violation("TLC: %s violated on Bind.tla" % res.invariant, replay={"trace": [dict(s) for _, s in res.trace()]},
@@ -172,9 +178,12 @@ def run(ctx):
         return
     if not any(len(s["case"]["tys"]) == 3 for s in states) or not any(len(s["case"]["tys"]) == 1 for s in states) or \
             {s["case"]["op"] for s in states} != set(OPS) or {s["case"]["order"] for s in states} != set(ORDERS) or \
-            not any(s["case"]["order"] == "base_first" and "int" in s["case"]["tys"] and "bigint" in s["case"]["tys"] for s in states):
+            not any(s["case"]["order"] == "base_first" and "int" in s["case"]["tys"] and "bigint" in s["case"]["tys"] for s in states) or \
+            not any(s["case"]["layout"] == "clustering_first" and s["case"]["ckty"] != s["case"]["tys"][0] for s in states) or \
+            not any(s["case"]["layout"] == "clustering_between" and s["case"]["ckty"] != s["case"]["tys"][1] for s in states):
         raise tlc.MachineryError("vacuity: single / composite keys, some operation, some definition order or a key mixing "
-                                 "Integer with a subclass not enumerated")
+                                 "Integer with a subclass or a clustering column declared before / between the partition key columns "
+                                 "not enumerated")
     by_signature = {}
     n = 0
     rejected = models = 0
@@ -198,9 +207,10 @@ def run(ctx):
                 if r:
                     by_signature[r[1]] = by_signature.get(r[1], 0) + 1
                     if by_signature[r[1]] == 1:
-                        ctx.violation("%s | key types %s values %r op %s, application history: %s" % (
-                            r[0], list(case["tys"]), [B.py_value(t, v) for t, v in zip(case["tys"], case["vals"])], case["op"],
-                            order), replay=r[2], signature=r[1])
+                        ctx.violation("%s | key types %s values %r op %s, clustering column (%s) declared %s, application "
+                                      "history: %s" % (r[0], list(case["tys"]),
+                                                       [B.py_value(t, v) for t, v in zip(case["tys"], case["vals"])], case["op"],
+                                                       case["ckty"], case["layout"], order), replay=r[2], signature=r[1])
             models += len(env._models)
             # binding self-test: corrupted expectations must be noticed
             probe = next(s for s in group if len(s["case"]["tys"]) == 2)
